@@ -4,6 +4,6 @@ cd "$(dirname "$0")/.."
 for d in benign/*/; do
   id=$(basename $d)
   out=$(tools/benigntest.sh "$PWD/benign/$id/patch.diff" 2>&1 | grep -v WARNING)
-  bad=$(echo "$out" | grep "^== " | grep -v "exit=0 0 violations")
+  bad=$(echo "$out" | grep "^== \|^   C[0-9]*: \|^patch does not apply to HEAD" | grep -v "exit=0 0 violations")
   echo "$id: $(echo "$out" | grep -c '^== .*exit=0 0 violations') of 20 checks clean$( [ -n "$bad" ] && echo; echo "$bad" | cut -c1-200)"
 done
